@@ -326,6 +326,25 @@ def global_rules(sm, rep, tier):
                 zeros.append(f"root inside ({lo},{hi})")
         zeros += [f"x={bk}" for bk, v in zip(g.breaks, g.points) if v == NAN or v == 0]
         rep.ob('F8', 'advection._fsign', not zeros, f"_fsign(x) is zero / undefined on {zeros}" if zeros else f"_fsign is total and non-zero on all {len(g.pieces)} pieces and {len(g.breaks)} break points", fs.loc())
+        # F8b: bounded away from zero - no piece may approach 0 at a finite end or at infinity (|_fsign(x)| >= m > 0 for all
+        # x, so the gradient ratios stay within |numerator|/m; a guard for the exact zero only leaves ratios unbounded)
+        small, cands = [], []
+        for lo, hi, p in g.intervals():
+            for end in (lo, hi):
+                if end is None or end in (float('-inf'), float('inf')) or str(end) in ('-inf', 'inf'):
+                    if P.pdeg(p.n) < P.pdeg(p.d):
+                        small.append(f"tends to 0 towards {end}")
+                    continue
+                dv = P.peval(p.d, end)
+                if dv == 0:
+                    continue            # a pole: unbounded, not small
+                v = P.peval(p.n, end) / dv
+                cands.append(abs(v))
+                if v == 0:
+                    small.append(f"tends to 0 as x -> {end} within ({lo},{hi})")
+        cands += [abs(v) for v in g.points if v != NAN]
+        rep.ob('F8', 'advection._fsign/bounded-away-from-zero', not small and not zeros,
+               f"_fsign is not bounded away from 0: {small}" if small else f"|_fsign(x)| > 0 uniformly (smallest end/break value {min(cands) if cands else '-'})", fs.loc())
         # identity outside the guard band
         big = g.at(5)
         rep.ob('F8', 'advection._fsign/identity', big == 5 and g.at(-5) == -5, f"_fsign(5)={big}, _fsign(-5)={g.at(-5)}", fs.loc())
